@@ -7,6 +7,7 @@ Stub: Hypothesis draws (`ctx.generate_from_schema`, `ctx.generate_from`) return 
 values drawn by hypothesis-jsonschema for that schema are trusted to satisfy it; the harness checks the *requested* schema instead.
 """
 from vf.h import *
+from vf.util import pick
 
 from schemathesis.generation import GenerationMode
 from schemathesis.generation import coverage as cov
@@ -189,6 +190,42 @@ def negative_number(
     return n_negative >= (1 if present else 0)
 
 
+TYPE_FORMS = ["integer", "number", "string", "boolean", "null", "object", "array", ["number", "null"], ["integer", "null"], ["string", "number"],
+              ["null"], ["boolean", "integer"], ["object", "array", "number"]]
+# not included: ["integer", "number"] - _negative_type raises KeyError('integer') for it on the pinned tree (a crash, reported as an error of
+# the operation; C03 is about labels, so this is recorded in DESIGN.md as an observation, not as a finding of this property)
+
+
+class TypeCtx(StubCtx):
+    __slots__ = ("asked",)
+
+    def generate_from(self, strategy):
+        self.asked.append(strategy)
+        return Sentinel(None)
+
+
+def negative_type(k: int) -> bool:
+    """
+    pre: 0 <= k < len(TYPE_FORMS)
+    post: _
+    """
+    ty = pick(TYPE_FORMS, k)
+    declared = [ty] if isinstance(ty, str) else list(ty)
+    ctx = TypeCtx(generation_modes=[GenerationMode.NEGATIVE])
+    ctx.asked = []
+    values = list(cov._negative_type(ctx, set(), ty))
+    if any(v.generation_mode != GenerationMode.NEGATIVE or v.description != "Incorrect type" for v in values):
+        return False
+    for strategy in ctx.asked:
+        for name, known in cov.STRATEGIES_FOR_TYPE.items():
+            if strategy is known:
+                # a value presented as having an incorrect type is drawn from a type the schema does not admit
+                # (an integer IS a number: never offered as a wrong type where `number` is admitted, alone or in a list)
+                if name in declared or (name == "integer" and "number" in declared):
+                    return False
+    return len(values) == len(ctx.asked) and len(values) >= 1
+
+
 def both_modes_number(minimum: Optional[int], maximum: Optional[int]) -> bool:
     """
     pre: minimum is None or maximum is None or minimum <= maximum
@@ -335,6 +372,9 @@ OBLIGATIONS = [
     Ob(fn="negative_number", clause="a value presented as invalid violates the schema in the way its description says",
        timeout={"quick": 120, "thorough": 400}, functions=["schemathesis.generation.coverage.cover_schema_iter"] + _NUM_FUNCS,
        symbolic="minimum, maximum, exclusiveMinimum, exclusiveMaximum: None or unbounded ints", bounds="all Python ints", stubs=[_STUB]),
+    Ob(fn="negative_type", clause="a value presented as having an incorrect type is drawn for a type the schema does not admit (integers are never offered as wrong where `number` is admitted, alone or in a type list)",
+       timeout=120, functions=["schemathesis.generation.coverage._negative_type"], symbolic="which of 13 `type` forms (7 names, 6 lists) is declared", bounds="13 type forms (the list [integer, number] makes the function raise KeyError and is excluded)",
+       stubs=["ctx.generate_from records the strategy it was asked to draw from"], outside=["the values Hypothesis draws from those per-type strategies"]),
     Ob(fn="both_modes_number", clause="with both modes, each boundary number is labelled positive iff it conforms",
        timeout={"quick": 120, "thorough": 400}, functions=["schemathesis.generation.coverage.cover_schema_iter",
                                                           "schemathesis.generation.coverage._cover_positive_for_type"] + _NUM_FUNCS,
